@@ -26,7 +26,8 @@ pub struct AllocCase {
     /// indices (among this history's MMAP calls / MREMAP calls) that the kernel refuses
     pub mmap_faults: Vec<u16>,
     pub mremap_faults: Vec<u16>,
-    /// placement steering per MMAP call: 1 directly above the previous mapping, 2 directly below
+    /// placement steering per MMAP call (4: directly above what is still mapped of the previous mapping's run):
+    /// 1 directly above the previous mapping, 2 directly below
     pub placement: Vec<u8>,
 }
 
@@ -400,6 +401,7 @@ pub fn check_alloc(c: &AllocCase) -> CaseResult {
     rep.class_if(!c.mmap_faults.is_empty() || !c.mremap_faults.is_empty(), "fault-plan");
     rep.class_if(c.placement.iter().any(|&p| p == 1), "placement-above");
     rep.class_if(c.placement.iter().any(|&p| p == 2), "placement-below");
+    rep.class_if(c.placement.iter().any(|&p| p == 4), "placement-at-end-of-trimmed-run");
     Ok(rep)
 }
 
@@ -450,7 +452,7 @@ pub fn case_strategy(max_ops: usize) -> impl Strategy<Value = AllocCase> {
         prop::collection::vec(op_strategy(), 1..max_ops),
         prop_oneof![3 => Just(vec![]), 2 => prop::collection::vec(0u16..12, 1..4)],
         prop_oneof![4 => Just(vec![]), 1 => prop::collection::vec(0u16..6, 1..3)],
-        prop_oneof![2 => Just(vec![]), 3 => prop::collection::vec(0u8..3, 1..16)],
+        prop_oneof![2 => Just(vec![]), 3 => prop::collection::vec(prop::sample::select(vec![0u8, 1, 2, 4, 4]), 1..16)],
     )
         .prop_map(|(ops, mmap_faults, mremap_faults, placement)| AllocCase { ops, mmap_faults, mremap_faults, placement })
 }
@@ -461,7 +463,7 @@ pub fn run(ctx: &Ctx) {
     ctx.run_prop(
         "single-fault",
         ctx.cases(300, 20_000),
-        (prop::collection::vec(op_strategy(), 1..40), 0u16..8, any::<bool>(), prop::collection::vec(0u8..3, 0..8)).prop_map(|(ops, k, remap, placement)| AllocCase {
+        (prop::collection::vec(op_strategy(), 1..40), 0u16..8, any::<bool>(), prop::collection::vec(prop::sample::select(vec![0u8, 1, 2, 4]), 0..8)).prop_map(|(ops, k, remap, placement)| AllocCase {
             ops,
             mmap_faults: if remap { vec![] } else { vec![k] },
             mremap_faults: if remap { vec![k % 3] } else { vec![] },
